@@ -168,7 +168,9 @@ func (w *gzipResponseWriter) Write(b []byte) (int, error) {
 				w.ResponseWriter.WriteHeader(w.code)
 			}
 
-			return w.Writer.Write(w.buffer.Bytes())
+			// report the length of b, not of everything buffered so far: io.Writer must not return n > len(b)
+			_, err = w.Writer.Write(w.buffer.Bytes())
+			return n, err
 		}
 
 		return n, err
